@@ -127,7 +127,8 @@ def replay(args):
     ind = os.path.join(d, 'inputs')
     os.makedirs(ind, exist_ok=True)
     for i in range(I):
-        with open(os.path.join(ind, f'input_{i:02d}.json'), 'w') as f:
+        # the names generate-input gives its files contain dots (bias ratio 0.5)
+        with open(os.path.join(ind, f'input_{i:02d}_bias_0.5.json'), 'w') as f:
             json.dump(input_spec(i), f)
     res = os.path.join(d, 'results')
     ntasks = N * C
